@@ -90,9 +90,12 @@ def slow_segments(ctx, rng, n):
             for sg, gp in zip(segs, gaps):
                 await _a.sleep(gp)
                 p.data_received(bytes(sg))
-                q = getattr(p, "_queue", None)
-                while isinstance(q, _a.Queue) and not q.empty():
-                    got.append(q.get_nowait())
+                # the receive queue through the base class's own non-blocking read(): no private name involved
+                while True:
+                    try:
+                        got.append(await lan._LanProtocol.read(p, timeout=0))
+                    except _a.QueueEmpty:
+                        break
         try:
             vloop.run(scenario)
         except Exception as e:  # noqa
